@@ -12,7 +12,7 @@ Definition ones3 : cvec := [fr 1; fr 1; fr 1].
 (* flag lanczos_alias_identity: the product of Identity returns its argument; from the second iteration on the in-place
    updates of the product result overwrite basis column i.  The second returned column has norm ~1e-47 instead of 1. *)
 Definition alias_bad (al : bool) : bool :=
-  let r := lanczos1 (fops 3) (fmv I3) al 3 ones3 3 tol7 in
+  let r := lanczos1 (fops 3) (fmv I3) al false 3 ones3 3 tol7 in
   Nat.eqb (length (rQ r)) 3 && (fst (fvdot (nth 1 (rQ r) []) (nth 1 (rQ r) [])) <? 0x1p-1).
 Theorem lanczos_alias_refuted : alias_bad true = true /\ alias_bad false = false.
 Proof. split; vm_compute; reflexivity. Qed.
@@ -23,12 +23,17 @@ Proof. split; vm_compute; reflexivity. Qed.
 Definition S3 : list cvec := [[fr 2; fr 1; fr 0]; [fr 1; fr 3; fr 1]; [fr 0; fr 1; fr 4]].
 Definition ev3 : cvec := [fr 0x1.93cd3a2c8198ep-1; fr (-0x1.279a74590331ap-1); fr 0x1.b0cb174df99c4p-3].
 Definition lam3 : cf := fr 0x1.4498517a7b356p+0.
-Definition reltol_bad : bool :=
-  let r := lanczos1 (fops 3) (fmv S3) false 3 ev3 3 tol7 in
+Definition reltol_bad_at (rfix : bool) : bool :=
+  let r := lanczos1 (fops 3) (fmv S3) false rfix 3 ev3 3 tol7 in
   (vdiff (fmv S3 ev3) (fvscale lam3 ev3) <=? 0x1.203af9ee75616p-50)      (* 1e-15 *)
   && Nat.eqb (length (rQ r)) 3
   && (fst (nth 0 (roff r) f0) <? 0x1.203af9ee75616p-50).
+Definition reltol_bad : bool := reltol_bad_at false.
 Theorem lanczos_reltol_first_step_refuted : reltol_bad = true.
+Proof. vm_compute. reflexivity. Qed.
+(* the repaired stopping test (reference ||A q_1|| instead of beta_1) stops after the first column on the same input *)
+Theorem lanczos_reltol_first_step_repaired :
+  length (rQ (lanczos1 (fops 3) (fmv S3) false true 3 ev3 3 tol7)) = 1%nat.
 Proof. vm_compute. reflexivity. Qed.
 
 (* flag lanczos_batch_shared_stop: element 1 of the batch lies in a 2-dimensional invariant subspace; alone it stops after
@@ -39,8 +44,8 @@ Definition S5 : list cvec :=
 Definition g5 : cvec := [fr 1; fr (-1); fr 2; fr 0x1p-1; fr 0x1.8p+0].
 Definition u01 : cvec := [fr 0x1.500b868ffb207p+0; fr 0x1.87ae4e8245e1ap-2; fr (-0x1.6374d6a216aabp-2); fr 0x1.953aeffe06554p-4; fr (-0x1.17a85dc5f057ap-6)].
 Definition batch_bad : bool :=
-  let alone := lanczos_batch (fops 5) (fmv S5) false 5 [u01] 4 tol7 in
-  let both := lanczos_batch (fops 5) (fmv S5) false 5 [g5; u01] 4 tol7 in
+  let alone := lanczos_batch (fops 5) (fmv S5) false false 5 [u01] 4 tol7 in
+  let both := lanczos_batch (fops 5) (fmv S5) false false 5 [g5; u01] 4 tol7 in
   Nat.eqb (fst alone) 2 && Nat.eqb (fst both) 4
   && (fst (nth 1 (roff (nth 1 (snd both) (mk_lres [] [] []))) f1) <? 0x1.19799812dea11p-40).   (* beta_2 < 1e-12 *)
 Theorem lanczos_batch_shared_stop_refuted : batch_bad = true.
